@@ -311,6 +311,34 @@ func rename(fd *ast.FuncDecl) {
 	})
 }
 
+// runBlocks: the bodies of the two comm clauses of the select in App.Run (nil if not found).
+func runBlocks(c *ex.Ctx, d *ast.File) (ev, frame []string) {
+	fd := ex.FindFunc(d, "App", "Run")
+	if fd == nil || fd.Body == nil {
+		return nil, nil
+	}
+	rename(fd)
+	ast.Inspect(fd.Body, func(n ast.Node) bool {
+		cc, ok := n.(*ast.CommClause)
+		if !ok || cc.Comm == nil {
+			return true
+		}
+		k := &skel{c: c}
+		for _, st := range cc.Body {
+			k.stmt(0, st)
+		}
+		src := norm(c, cc.Comm)
+		switch {
+		case strings.Contains(src, "time.After") && frame == nil:
+			frame = k.lines
+		case strings.Contains(src, "Events()") && ev == nil:
+			ev = k.lines
+		}
+		return true
+	})
+	return ev, frame
+}
+
 // genBodies writes Gen/VxfwBodies.lean.
 func genBodies(c *ex.Ctx, d *ast.File) {
 	var sb strings.Builder
@@ -340,6 +368,27 @@ func genBodies(c *ex.Ctx, d *ast.File) {
 		k := &skel{c: c}
 		k.block(0, fd.Body)
 		for i, l := range k.lines {
+			if i > 0 {
+				sb.WriteString(",")
+			}
+			sb.WriteString("\n  " + l)
+		}
+		sb.WriteString("]\n")
+	}
+	// App.Run: the two arms of its select as separate statement lists (the select itself, the channel receive and the
+	// timer are not in the translated subset): the body of the event arm (the type switch and the shouldQuit test) and
+	// the body of the time.After arm (the frame step).
+	evBlk, frBlk := runBlocks(c, d)
+	for _, x := range []struct {
+		name, doc string
+		lines []string
+	}{{"runEventBlock", "App.Run, the arm `case ev := <-a.vx.Events()`", evBlk}, {"runFrameBlock", "App.Run, the arm `case <-time.After(…)`", frBlk}} {
+		fmt.Fprintf(&sb, "\n/-- %s -/\ndef %s : List Line := [", x.doc, x.name)
+		if x.lines == nil {
+			sb.WriteString("\n  ⟨0, .unknown, (.unknown \"block not found\"), .none⟩]\n")
+			continue
+		}
+		for i, l := range x.lines {
 			if i > 0 {
 				sb.WriteString(",")
 			}
